@@ -39,6 +39,13 @@ Definition check_run_t (c : run_t_case) : bool :=
   let '(sd, sb, cards, tcells, expected) := c in
   res_eqb (run_t (mkCfg sd sb) cards tcells) expected.
 
+(* ... and with the order in which Python walked the set of implicit surfaces *)
+Definition run_w_case := (list N * bool * bool * list scard * list tcell * res output)%type.
+
+Definition check_run_w (c : run_w_case) : bool :=
+  let '(ids, sd, sb, cards, tcells, expected) := c in
+  res_eqb (run_t_with ids (mkCfg sd sb) cards tcells) expected.
+
 (* case (b): re_name on one string, groups as observed *)
 Definition check_split (c : string * (string * string)) : bool :=
   let (f, n) := split_flags (fst c) in
